@@ -488,6 +488,57 @@ def _fold_temps(fn):
             i += 1
 
     block(fn.body)
+    _coalesce_copies(fn)
+
+
+def _coalesce_copies(fn):
+    """`_inlN_y = E ... X = _inlN_y` (same block, `_inlN_y` bound once, X neither read nor written in between and not
+    captured by a nested scope): bind X directly where `_inlN_y` was bound and drop the copy."""
+    stores, nested_names = {}, set()
+    for n in ast.walk(fn):
+        if isinstance(n, ast.Name) and n.id.startswith("_inl") and isinstance(n.ctx, ast.Store):
+            stores[n.id] = stores.get(n.id, 0) + 1
+        if isinstance(n, FUNC + (ast.Lambda,)) and n is not fn:
+            nested_names |= {x.id for x in ast.walk(n) if isinstance(x, ast.Name)}
+
+    def names_of(stmts):
+        return {x.id for st in stmts for x in ast.walk(st) if isinstance(x, ast.Name)}
+
+    def block(stmts):
+        changed = True
+        while changed:
+            changed = False
+            for j, st in enumerate(stmts):
+                if not (isinstance(st, ast.Assign) and len(st.targets) == 1 and isinstance(st.targets[0], ast.Name) and isinstance(st.value, ast.Name)):
+                    continue
+                tmp, x = st.value.id, st.targets[0].id
+                if not tmp.startswith("_inl") or x.startswith("_inl") or stores.get(tmp) != 1 or x in nested_names or tmp in nested_names:
+                    continue
+                defs = [i for i in range(j) if isinstance(stmts[i], ast.Assign) and any(
+                    isinstance(t, ast.Name) and t.id == tmp for t in stmts[i].targets)]
+                if len(defs) != 1:
+                    continue
+                i = defs[0]
+                if x in names_of(stmts[i:j]):
+                    continue
+                if tmp in names_of(stmts[j + 1:]):
+                    continue
+                for k in range(i, j):
+                    for nd in ast.walk(stmts[k]):
+                        if isinstance(nd, ast.Name) and nd.id == tmp:
+                            nd.id = x
+                del stmts[j]
+                changed = True
+                break
+        for st in stmts:
+            for field in ("body", "orelse", "finalbody"):
+                b = getattr(st, field, None)
+                if isinstance(b, list) and b and isinstance(b[0], ast.stmt) and not isinstance(st, FUNC + (ast.ClassDef,)):
+                    block(b)
+            for h in getattr(st, "handlers", None) or []:
+                block(h.body)
+
+    block(fn.body)
 
 
 class _Replace(ast.NodeTransformer):
@@ -797,6 +848,78 @@ class _Inliner(object):
                         if not blk and field == "body":
                             blk.append(_pass_like(fn))
                         self.log.append("removed helper %s (no reference left)" % q)
+
+
+def unroll_reflective_loops(tree):
+    """`for name in ("a", "b"): setattr(x, name, getattr(y, name))`  ->  `x.a = y.a; x.b = y.b`.
+    A loop over a literal (or module-level, bound once) tuple/list of string constants whose body uses the loop
+    variable only as the attribute name of setattr/getattr is unrolled, and setattr/getattr with a constant name become
+    plain attribute stores/loads, so that reflective writes are visible to the write index like any other."""
+    consts = {}
+    for st in tree.body:
+        if isinstance(st, ast.Assign) and len(st.targets) == 1 and isinstance(st.targets[0], ast.Name) and isinstance(st.value, (ast.Tuple, ast.List)):
+            if st.value.elts and all(isinstance(e, ast.Constant) and isinstance(e.value, str) for e in st.value.elts):
+                consts[st.targets[0].id] = None if st.targets[0].id in consts else st.value
+    log = []
+
+    class Fold(ast.NodeTransformer):
+        def visit_Expr(self, node):
+            self.generic_visit(node)
+            c = node.value
+            if isinstance(c, ast.Call) and isinstance(c.func, ast.Name) and c.func.id == "setattr" and len(c.args) == 3 and not c.keywords and \
+                    isinstance(c.args[1], ast.Constant) and isinstance(c.args[1].value, str) and c.args[1].value.isidentifier():
+                tgt = ast.Attribute(value=c.args[0], attr=c.args[1].value, ctx=ast.Store())
+                return ast.copy_location(ast.Assign(targets=[tgt], value=c.args[2], lineno=node.lineno), node)
+            return node
+
+        def visit_Call(self, node):
+            self.generic_visit(node)
+            if isinstance(node.func, ast.Name) and node.func.id == "getattr" and len(node.args) == 2 and not node.keywords and \
+                    isinstance(node.args[1], ast.Constant) and isinstance(node.args[1].value, str) and node.args[1].value.isidentifier():
+                return ast.copy_location(ast.Attribute(value=node.args[0], attr=node.args[1].value, ctx=ast.Load()), node)
+            return node
+
+    def reflective_only(body, var):
+        """the loop variable occurs only as the name argument of setattr/getattr"""
+        ok_ids = set()
+        for n in ast.walk(ast.Module(body=body, type_ignores=[])):
+            if isinstance(n, ast.Call) and isinstance(n.func, ast.Name) and n.func.id in ("setattr", "getattr") and len(n.args) >= 2 and \
+                    isinstance(n.args[1], ast.Name) and n.args[1].id == var:
+                ok_ids.add(id(n.args[1]))
+        uses = [n for n in ast.walk(ast.Module(body=body, type_ignores=[])) if isinstance(n, ast.Name) and n.id == var]
+        return bool(uses) and all(id(n) in ok_ids for n in uses)
+
+    def visit_block(stmts):
+        out = []
+        for st in stmts:
+            for field in ("body", "orelse", "finalbody"):
+                b = getattr(st, field, None)
+                if isinstance(b, list) and b and isinstance(b[0], ast.stmt):
+                    setattr(st, field, visit_block(b))
+            for h in getattr(st, "handlers", None) or []:
+                h.body = visit_block(h.body)
+            if isinstance(st, ast.For) and isinstance(st.target, ast.Name) and not st.orelse:
+                it = st.iter
+                if isinstance(it, ast.Name) and consts.get(it.id) is not None:
+                    it = consts[it.id]
+                if isinstance(it, (ast.Tuple, ast.List)) and 0 < len(it.elts) <= 8 and all(
+                        isinstance(e, ast.Constant) and isinstance(e.value, str) for e in it.elts) and reflective_only(st.body, st.target.id) and not any(
+                        isinstance(x, (ast.Break, ast.Continue, ast.Return, ast.Yield, ast.YieldFrom) + FUNC) for b in st.body for x in ast.walk(b)):
+                    for e in it.elts:
+                        for b in st.body:
+                            nb = _Replace(None, ast.Constant(value=e.value), st.target.id).visit(copy.deepcopy(b))
+                            out.append(ast.fix_missing_locations(Fold().visit(nb)))
+                    log.append("unrolled reflective loop at line %d" % st.lineno)
+                    continue
+            out.append(st)
+        return out
+
+    for n in ast.walk(tree):
+        if isinstance(n, FUNC):
+            n.body = visit_block(n.body)
+    if log:
+        ast.fix_missing_locations(tree)
+    return log
 
 
 def inline_new_helpers(tree, modname):
